@@ -1049,6 +1049,26 @@ func (c *ChannelArbitrator) stateStep(
 		// either on the local or the remote/remote pending commitment
 		// transaction.
 		dustHTLCs := chainActions[HtlcFailDustAction]
+
+		// If no commitment is confirmed yet, an HTLC that is dust on
+		// our commitment may still have an output on one of the remote
+		// commitments (the dust limits and the HTLC fees of the two
+		// sides differ). Should that commitment be the one that
+		// confirms, the remote party can still claim the output with
+		// the preimage, so we must not cancel the HTLC back yet. We'll
+		// only cancel those that have no output anywhere, the others
+		// are either resolved on-chain or cancelled back as dust of
+		// the confirmed commitment in StateContractClosed.
+		if confCommitSet == nil {
+			dustHTLCs = fn.Filter(
+				dustHTLCs, func(htlc channeldb.HTLC) bool {
+					return !c.hasOutputOnAnyCommit(
+						htlc.HtlcIndex,
+					)
+				},
+			)
+		}
+
 		if len(dustHTLCs) > 0 {
 			log.Debugf("ChannelArbitrator(%v): canceling %v dust "+
 				"HTLCs backwards", c.cfg.ChanPoint,
@@ -2905,6 +2925,20 @@ func (c *ChannelArbitrator) updateActiveHTLCs() {
 		pendingSet := c.unmergedSet[RemotePendingHtlcSet]
 		c.activeHTLCs[RemotePendingHtlcSet] = pendingSet
 	}
+}
+
+// hasOutputOnAnyCommit returns true if the outgoing HTLC with the given index
+// has an output on at least one of the commitments of activeHTLCs (ours, the
+// remote one or the pending remote one).
+func (c *ChannelArbitrator) hasOutputOnAnyCommit(htlcIndex uint64) bool {
+	for _, htlcs := range c.activeHTLCs {
+		htlc, ok := htlcs.outgoingHTLCs[htlcIndex]
+		if ok && htlc.OutputIndex >= 0 {
+			return true
+		}
+	}
+
+	return false
 }
 
 // channelAttendant is the primary goroutine that acts at the judicial
